@@ -698,6 +698,11 @@ static vector<Part> &parts()
     p.push_back({"%i", {I(INT_MIN)}, false});
     p.push_back({"%12X", {I(255)}, false});
     p.push_back({"%-8.3llx", {L(0x1ffffffffLL)}, false});
+    // parts whose whole output is empty: an entry point must still terminate its buffer
+    p.push_back({"", {}, false});
+    p.push_back({"%s", {S("")}, false});
+    p.push_back({"%.0d", {I(0)}, false});
+    p.push_back({"%.*s", {I(0), S("never read")}, false});
     return p;
 }
 static void mixed_body()
@@ -789,41 +794,57 @@ int igc_fdputc(int c, int fd)
     g_fd_out.push_back((char)c);
     return 1;
 }
-// typed variadic calls of the four entry points (c06_dispatch.cpp): 0 sprintf, 1 vsprintf, 2 fdprintf, 3 vfdprintf
-int run_entry(int which, char *buf, const char *fmt, const Args &a);
+// typed variadic calls of the entry points (c06_dispatch.cpp): 0 sprintf, 1 vsprintf, 2 fdprintf, 3 vfdprintf, 4 snprintf
+int run_entry(int which, char *buf, size_t size, const char *fmt, const Args &a);
 static void entries_body()
 {
-    static const char *ENT[] = {"sprintf", "vsprintf", "fdprintf", "vfdprintf"};
+    static const char *ENT[] = {"sprintf", "vsprintf", "fdprintf", "vfdprintf", "snprintf"};
     vector<Part> &P = parts();
     int n = (int)P.size();
     int combo = mc::choose(n * n);
-    int which = mc::choose(4);
-    int failmode = which >= 2 ? mc::choose(3) : mc::choose(1); // fd entries: no failure / first char fails / third char fails
+    int which = mc::choose(5);
+    int sep = mc::choose(2); // "|" between the parts, or nothing (so that the whole output can be empty)
+    bool fd = which == 2 || which == 3;
+    int failmode = fd ? mc::choose(3) : mc::choose(1); // fd entries: no failure / first char fails / third char fails
     const Part &p0 = P[combo % n], &p1 = P[combo / n];
-    string f = string(p0.frag) + "|" + p1.frag;
+    string f = string(p0.frag) + (sep ? "" : "|") + p1.frag;
     Args a = p0.args;
     a.insert(a.end(), p1.args.begin(), p1.args.end());
     mc::describe("%s(%s) args [%s] write-failure mode %d", ENT[which], vis(f).c_str(), show_args(a).c_str(), failmode);
-    string expect = (p0.is_p ? run_impl(p0.frag, p0.args).text : run_ref(p0.frag, p0.args).text) + "|" +
+    string expect = (p0.is_p ? run_impl(p0.frag, p0.args).text : run_ref(p0.frag, p0.args).text) + (sep ? "" : "|") +
                     (p1.is_p ? run_impl(p1.frag, p1.args).text : run_ref(p1.frag, p1.args).text);
     string e = ENT[which];
+    string ecls = expect.empty() ? ".empty_output" : "";
     mc::crash_context("C06.%s.crash", e.c_str());
-    if (which < 2)
+    if (!fd)
     {
-        // exactly-sized heap buffer: text + terminator; ASan sees one byte too many
+        // Exactly-sized heap buffer (text + terminator: ASan reports the first byte beyond it), pre-filled
+        // with a non-zero pattern: buf[0..ret) must be the text, buf[ret] the terminator that the call
+        // itself wrote, and every byte after ret+1 must still hold the pattern.
         size_t need = expect.size() + 1;
         char *buf = (char *)malloc(need);
         memset(buf, 0x5A, need);
-        int r = run_entry(which, buf, f.c_str(), a);
+        int r = run_entry(which, buf, need, f.c_str(), a);
         mc::crash_context("C06.harness");
-        string got(buf, strnlen(buf, need));
-        bool term = memchr(buf, 0, need) != nullptr;
-        // embedded NULs do not occur in this part set, so the C string is the whole output
-        if (!term || got != expect)
-            mc::violation("C06." + e + ".text", "%s(%s): buffer holds %s%s, expected %s", e.c_str(), vis(f).c_str(), vis(got).c_str(),
-                          term ? "" : " (unterminated)", vis(expect).c_str());
+        string whole(buf, need);
         if (r != (int)expect.size())
-            mc::violation("C06." + e + ".retval", "%s(%s): returned %d, %zu characters were due", e.c_str(), vis(f).c_str(), r, expect.size());
+            mc::violation("C06." + e + ".retval" + ecls, "%s(%s): returned %d, %zu characters were due", e.c_str(), vis(f).c_str(), r,
+                          expect.size());
+        size_t rr = r < 0 ? 0 : (size_t)r < need ? (size_t)r : need - 1;
+        if (whole.compare(0, rr, expect, 0, rr) != 0 || rr != expect.size())
+            mc::violation("C06." + e + ".text" + ecls, "%s(%s): buffer starts with %s, expected %s", e.c_str(), vis(f).c_str(),
+                          vis(whole.substr(0, rr)).c_str(), vis(expect).c_str());
+        if (buf[rr] != 0)
+            mc::violation("C06." + e + ".unterminated" + ecls,
+                          "%s(%s): returned %d but buf[%zu] is 0x%02x (the pre-fill pattern is 0x5a), not the terminator; buffer: %s", e.c_str(),
+                          vis(f).c_str(), r, rr, (unsigned char)buf[rr], vis(whole).c_str());
+        for (size_t k = rr + 1; k < need; k++)
+            if (buf[k] != 0x5A)
+            {
+                mc::violation("C06." + e + ".wrote_beyond_terminator" + ecls, "%s(%s): byte %zu after the terminator at %zu was overwritten; buffer: %s",
+                              e.c_str(), vis(f).c_str(), k, rr, vis(whole).c_str());
+                break;
+            }
         free(buf);
     }
     else
@@ -832,7 +853,7 @@ static void entries_body()
         g_fd_calls = 0;
         g_fd_seen = -1;
         g_fd_fail_at = failmode == 0 ? -1 : failmode == 1 ? 0 : 2;
-        int r = run_entry(which, nullptr, f.c_str(), a);
+        int r = run_entry(which, nullptr, 0, f.c_str(), a);
         mc::crash_context("C06.harness");
         if (failmode == 0)
         {
@@ -850,8 +871,8 @@ static void entries_body()
                           vis(f).c_str(), g_fd_fail_at, r);
         g_fd_fail_at = -1;
     }
-    if (a.size() >= 2 || failmode)
-        mc::nontrivial();
+    if (a.size() >= 2 || failmode || expect.empty())
+        mc::nontrivial(); // two or more arguments in sequence, an injected write failure, or an empty output
     mc::outcome(expect + (failmode ? "!" : ""));
 }
 
